@@ -1106,9 +1106,11 @@ def mon_C05(case):
         pre = prev_state(case, i)
         seen = set()
         for sid, f in ln.frames:
-            if not f.startswith("pres ") or " what=acs" not in f or "dacs=" not in f:
+            if not f.startswith("pres ") or " what=acs" not in f:
                 continue
             k = frame_kv(f)
+            # a notice which announces a change without saying which: whoever follows the permissions by the notices keeps the old ones
+            k.setdefault("dacs", "_/_")
             t = f.split(" ")[1]
             src = k.get("src", "-")
             if src == "-":
@@ -1120,7 +1122,7 @@ def mon_C05(case):
             if (t, src, k["dacs"]) in seen:
                 continue
             seen.add((t, src, k["dacs"]))
-            dw, dg = k["dacs"].split("/")
+            dw, dg = [("" if x == "_" else x) for x in k["dacs"].split("/")]
             old = (pre.cache.get(t, {}).get("users", {}).get(src) if pre else None)
             new = ln.cache.get(t, {}).get("users", {}).get(src)
             ow, og = (old["want"], old["given"]) if old and not old["deleted"] else ("N", "N")
